@@ -306,6 +306,21 @@ def run_edits(ctx, seeds, gens):
     shapes["import-name-too-long"] = "import %s;\nfunction main() -> void { }\n" % ("N" * 300)
     shapes["import-path-too-long"] = "import %s.M;\nfunction main() -> void { }\n" % ".".join(["p" * 200] * 30)
     shapes["import-wild-too-long"] = "import %s.*;\nfunction main() -> void { }\n" % ("W" * 300)
+    # annotation lists: repeated and mixed annotations in front of functions, members and variables
+    anns = ["@quantum", "@tracked", "@shots(2)", "@shots", "@unknown", "@quantum()"]
+    arng = ctx.rng("annotations")
+    for ai in range(ctx.n(60, 600)):
+        lst = " ".join(arng.choice(anns) for _ in range(arng.randint(2, 4)))
+        target = arng.choice(["function f() -> void { }", "function main() -> void { }", "int x;", "qubit q;",
+                              "class K { %s public function m() -> bit { return 0b; } public constructor() -> K = default; }",
+                              "class K { %s public qubit q; public constructor() -> K = default; }"])
+        if "%s" in target:
+            text = target % lst + "\nfunction main() -> void { }\n"
+        elif target.startswith("function"):
+            text = lst + " " + target + ("\nfunction main() -> void { }\n" if "main" not in target else "\n")
+        else:
+            text = "function main() -> void { %s %s }\n" % (lst, target)
+        shapes["annotations-%d" % ai] = text
     shapes["missing-import"] = "import nowhere.Thing;\nfunction main() -> void { }\n"
     shapes["bad-token-after-import"] = "import bloch.lang.Object;\nfunction main() -> void { int x = ; }\n"
     # inheritance cycles with tails leading into them, under many names (class registries are hash
